@@ -18,7 +18,8 @@ import random
 import time
 
 from checks.known import match_known
-from simkit import commmodel, distrun, driver, e1, mrecipe, simmpi
+from simkit import (commmodel, distrun, driver, e1, mrecipe, partcheck, ptamper,
+                    simmpi)
 
 PROP = "C10"
 LEVEL = "fault_enumeration"
@@ -26,10 +27,10 @@ LEVEL = "fault_enumeration"
 TIERS = {
     "quick": {"streams": 64, "runs": 24, "pairs": 8, "budget_s": None,
               "codegen_every": 0, "proc_groups": 3, "proc_progs": 150,
-              "proc_faults": 5},
+              "proc_faults": 5, "tampers": 6},
     "thorough": {"streams": 4000, "runs": 12, "pairs": 30, "budget_s": 15 * 60,
                  "codegen_every": 0, "proc_groups": 100, "proc_progs": 400,
-                 "proc_faults": 8},
+                 "proc_faults": 8, "tampers": 16},
 }
 
 RULE = ("one evaluation = one simulated multi-rank run of "
@@ -97,8 +98,63 @@ def _is_crash(x):
     return bool(x.names & CRASH_NAMES)
 
 
+def evaluate_tamper(case, res):
+    """partition-level faults: find_distributed_partition's result of a VALID
+    program is tampered with on one rank (ptamper), then every rank runs
+    verify / number / execute.  Required: if the tampered global part graph is
+    cyclic (reference model: partcheck.check_global) and nevertheless every
+    rank gets through verify_distributed_partition, then the execution must
+    still succeed; a verified partition that hangs, crashes or computes wrong
+    values is a violation.  Nothing is demanded of a tampering that leaves a
+    feasible order."""
+    rec = res["record"]
+    n = len(rec)
+    status = res["status"]
+    v = []
+    desc = [r.get("tampered") for r in rec if r.get("tampered")]
+    if not desc:
+        case["_tamper_outcome"] = "no-candidate"
+        return v
+    pre = [i for i in range(n) if rec[i].get("stage") in (None, "partitioned")]
+    raised_pre = [(i, ExcInfo.of(status[i][1])) for i in pre
+                  if status[i][0] == "raised"]
+    if raised_pre:
+        for i, x in raised_pre:
+            if "SimLivelock" in x.names:
+                v.append({"class": "livelock", "rank": i, "detail": x.text})
+            elif _is_crash(x):
+                v.append({"class": f"crashed-instead-of-diagnosing:{x.tname}",
+                          "rank": i, "detail": x.text + f" after: {desc}"})
+        case["_tamper_outcome"] = "diagnosed:" + "/".join(
+            sorted({x.tname for _i, x in raised_pre}))
+        return v
+    if pre:
+        v.append({"class": "stuck-before-verification-finished", "rank": None,
+                  "detail": f"{[st[0] for st in status]} after: {desc}"})
+        case["_tamper_outcome"] = "stuck"
+        return v
+    model = partcheck.check_global([r["partition"] for r in rec])
+    cyc = [m for m in model if m["class"] == "global-part-graph-cyclic"]
+    ov = distrun.oracle_c08(case["recipe"], res, case.get("iterations", 1))
+    if not ov:
+        case["_tamper_outcome"] = "verified-and-executed" + (
+            "-though-model-cyclic" if cyc else "")
+        return v
+    if cyc:
+        v.append({"class": "infeasible-partition-verified", "rank": None,
+                  "detail": f"{desc[0]}; part graph: {cyc[0]['detail']}; every "
+                            f"rank passed verify_distributed_partition; "
+                            f"execution: {e1.classes_of(ov)}"})
+        case["_tamper_outcome"] = "VERIFIED-BUT-INFEASIBLE"
+    else:
+        case["_tamper_outcome"] = "verified-failed-outside-cycle-model"
+    return v
+
+
 def evaluate(case, res):
     """C10 oracle on a thread-actor run"""
+    if case.get("tamper"):
+        return evaluate_tamper(case, res)
     model = commmodel.analyse(res["dags"])
     case["_model"] = model
     return evaluate_status(model, res["status"], res["outcome"])
@@ -274,7 +330,7 @@ def replay_process(doc):
 def run_stream(task):
     if isinstance(task[1], tuple):
         return run_proc_group(task)
-    seed, stream, nprogs, npairs = task
+    seed, stream, nprogs, npairs, ntampers = task
     known = driver.load_known_findings(PROP)
     acc = e1.Accum()
     t0 = time.monotonic()
@@ -294,6 +350,8 @@ def run_stream(task):
                     "stop_after": "verify"}
             sub = random.Random(f"{seed}:{PROP}:{stream}:{run}:{fi}")
             res, trace = e1.run_with(case, None, sub)
+            if fi == 0:
+                base_parts = [rec.get("partition") for rec in res["record"]]
             v = evaluate(case, res)
             model = case.pop("_model")
             acc.runs += 1
@@ -340,6 +398,45 @@ def run_stream(task):
                         "stream": stream, "run": f"{run}.{fi}", "case": case,
                         "decisions": trace, "classes": e1.classes_of(rest),
                         "details": rest[:8]})
+        # partition-level faults on the valid program
+        for ti in range(ntampers):
+            trng = random.Random(f"{seed}:{PROP}:{stream}:{run}:t{ti}")
+            kind = "move-recv" if trng.random() < 0.75 else "add-needed"
+            # a rank whose partition (as seen in the fault-free run) offers a
+            # candidate, if there is one
+            ranks = [r for r, p in enumerate(base_parts) if p is not None
+                     and ptamper.candidates(p, kind)] \
+                or list(range(recipe["nranks"]))
+            tam = {"rank": trng.choice(ranks), "kind": kind,
+                   "pick": trng.randrange(10 ** 6)}
+            cfg = simmpi.draw_config(trng, recipe["nranks"])
+            case = {"recipe": recipe, "cfg": cfg, "iterations": 1,
+                    "real_codegen": False, "faults": [],
+                    "stop_after": "execute", "tamper": tam}
+            res, trace = e1.run_with(case, None, trng)
+            v = evaluate(case, res)
+            oc = case.pop("_tamper_outcome", "?")
+            acc.runs += 1
+            acc.events += res["sim"].stats["events"]
+            acc.stats.update(res["sim"].stats)
+            acc.policies[cfg["policy"]] += 1
+            acc.extra[f"tamper[{tam['kind']}]:{oc}"] += 1
+            if oc != "no-candidate":
+                acc.extra["partition_tamperings_applied"] += 1
+                key = hashlib.sha256((e1.recipe_digest(recipe) + json.dumps(
+                    tam, sort_keys=True)).encode()).digest()[:8]
+                acc.pairs.add(key)
+                if oc.startswith("diagnosed"):
+                    acc.nontrivial_pairs.add(key)
+            if v:
+                rest, hits = match_known(case, v, known)
+                for h in hits:
+                    acc.known.append((h, stream, run))
+                if rest:
+                    acc.violations.append({
+                        "stream": stream, "run": f"{run}.t{ti}", "case": case,
+                        "decisions": trace, "classes": e1.classes_of(rest),
+                        "details": rest[:8]})
         if len(acc.violations) >= 3:
             break
     for (kinds, sig), cnt in outcomes.items():
@@ -349,7 +446,7 @@ def run_stream(task):
 
 
 def make_tasks(seed, conf):
-    tasks = [(seed, k, conf["runs"], conf["pairs"])
+    tasks = [(seed, k, conf["runs"], conf["pairs"], conf.get("tampers", 0))
              for k in range(conf["streams"])]
     for g in range(conf.get("proc_groups", 0)):
         tasks.insert(min(len(tasks), 4 * g),
@@ -366,6 +463,9 @@ def coverage_extra(total):
         "model_defect_classes": {k[7:]: int(v) for k, v in sorted(total.extra.items())
                                  if k.startswith("defect:")},
         "outcome_table": tab,
+        "partition_tampering_outcomes": {
+            k[6:]: int(v) for k, v in sorted(total.extra.items())
+            if k.startswith("tamper[")},
         "exhaustive_over": "all single faults at all live communication "
                            "operations of each sampled program (the programs "
                            "themselves are sampled)",
@@ -379,9 +479,11 @@ def replay(path):
         v = replay_process(doc)
         return doc, e1.classes_of(v), v
     case = e1.case_from_doc(doc)
-    case["stop_after"] = "verify"
+    if not case.get("tamper"):
+        case["stop_after"] = "verify"
     res, _trace = e1.run_with(case, doc["schedule"])
     v = evaluate(case, res)
     case.pop("_model", None)
+    case.pop("_tamper_outcome", None)
     rest, _hits = match_known(case, v, driver.load_known_findings(PROP))
     return doc, e1.classes_of(rest), rest
